@@ -19,7 +19,7 @@ import (
 func VerifC11_QueueOrder() {
 	ord := []QueueOrdering{OrderingFIFO, OrderingLIFO}[verif.Choice("ordering", 2)]
 	q := &queue{list: list.New(), ordering: ord}
-	n := 2 + verif.Choice("waiters", 3)
+	n := 2 + verif.Choice("waiters", verif.Tiered(3, 5))
 	evicts := make([]EvictFunc, n)
 	chans := make([]<-chan core.Listener, n)
 	ctxs := make([]context.Context, n)
@@ -162,7 +162,7 @@ func VerifC12_BacklogBound() {
 	to := verif.Int64("timeout")
 	verif.Assume(to >= 1 && to < 1<<60)
 	q := NewQueueBlockingLimiterFromConfig(d, QueueLimiterConfig{Ordering: OrderingFIFO, MaxBacklogSize: maxB, MaxBacklogTimeout: time.Duration(to), BacklogEvictDoneCtx: evict, MetricRegistry: reg})
-	n := verif.Choice("prefilled", 4)
+	n := verif.Choice("prefilled", verif.Tiered(4, 7))
 	for i := 0; i < n; i++ {
 		q.backlog.push(context.Background())
 	}
